@@ -1,5 +1,5 @@
 ENGINES = [
-    {"name": "pyscan", "path": "vt/", "serves_properties": ["C01", "C02", "C03", "C04", "C05", "C07", "C12", "C10", "C11", "C13", "C19", "C20"],
+    {"name": "pyscan", "path": "vt/", "serves_properties": ["C01", "C02", "C03", "C04", "C05", "C07", "C10", "C11", "C12", "C13", "C16", "C19", "C20"],
      "kind_free_text": "runtime monitoring of the real Python scanner modules imported from /repo's working tree: recorded events judged by independent reference models, icontract invariants on live objects"},
 ]
 NOTES = "All checks: ./check <id> --tier quick|thorough [--seed N]; VERIF_SEED/VERIF_TIER honoured. Exit 0 held / 1 VIOLATION / 2 INCONCLUSIVE. See DESIGN.md."
